@@ -146,20 +146,20 @@ func engaDrawConfig(t *rapid.T, minNodes, maxNodes, minAccts, maxAccts, maxByz i
 type engaProfile struct {
 	Name                                                                                               string
 	wBenign, wDeliver, wLocal, wTimeout, wFast, wClock, wDrop, wPartition, wHeal, wCrash, wRestart    int
-	wCatchup, wByz, wTickAll, wDisk, wRedeliver, wHold                                                 int
+	wCatchup, wByz, wTickAll, wDisk, wRedeliver, wHold, wCrashLoop                                     int
 	fifo                                                                                               int // percent of deliveries taken from the head of the pool
 	dup                                                                                                int // percent of deliveries that leave a duplicate behind
 	burst                                                                                              int // length of benign bursts
 }
 
 var engaProfiles = []engaProfile{
-	{Name: "mostly-benign", wBenign: 60, wDeliver: 10, wLocal: 10, wTimeout: 4, wFast: 1, wClock: 2, wDrop: 2, wPartition: 1, wHeal: 2, wCrash: 2, wRestart: 4, wCatchup: 1, wByz: 4, wTickAll: 2, wDisk: 2, wRedeliver: 1, wHold: 2, fifo: 80, dup: 3, burst: 40},
-	{Name: "reorder", wBenign: 10, wDeliver: 45, wLocal: 25, wTimeout: 4, wFast: 1, wClock: 2, wDrop: 2, wPartition: 1, wHeal: 2, wCrash: 1, wRestart: 4, wCatchup: 1, wByz: 4, wTickAll: 2, wDisk: 3, wRedeliver: 2, wHold: 2, fifo: 20, dup: 10, burst: 12},
-	{Name: "lossy", wBenign: 30, wDeliver: 15, wLocal: 15, wTimeout: 6, wFast: 1, wClock: 2, wDrop: 16, wPartition: 1, wHeal: 2, wCrash: 1, wRestart: 4, wCatchup: 2, wByz: 4, wTickAll: 6, wDisk: 2, wRedeliver: 1, wHold: 6, fifo: 60, dup: 3, burst: 25},
-	{Name: "partition", wBenign: 45, wDeliver: 10, wLocal: 10, wTimeout: 5, wFast: 2, wClock: 2, wDrop: 2, wPartition: 6, wHeal: 3, wCrash: 1, wRestart: 4, wCatchup: 2, wByz: 4, wTickAll: 8, wDisk: 2, wRedeliver: 1, wHold: 4, fifo: 70, dup: 3, burst: 40},
-	{Name: "crashy", wBenign: 40, wDeliver: 10, wLocal: 12, wTimeout: 4, wFast: 1, wClock: 2, wDrop: 2, wPartition: 1, wHeal: 2, wCrash: 10, wRestart: 10, wCatchup: 2, wByz: 3, wTickAll: 4, wDisk: 6, wRedeliver: 1, wHold: 2, fifo: 70, dup: 3, burst: 25},
-	{Name: "timeouts", wBenign: 35, wDeliver: 8, wLocal: 8, wTimeout: 14, wFast: 5, wClock: 5, wDrop: 4, wPartition: 1, wHeal: 2, wCrash: 1, wRestart: 4, wCatchup: 1, wByz: 3, wTickAll: 14, wDisk: 2, wRedeliver: 1, wHold: 8, fifo: 70, dup: 3, burst: 25},
-	{Name: "byzantine", wBenign: 40, wDeliver: 10, wLocal: 10, wTimeout: 5, wFast: 1, wClock: 2, wDrop: 3, wPartition: 1, wHeal: 2, wCrash: 1, wRestart: 4, wCatchup: 1, wByz: 22, wTickAll: 5, wDisk: 2, wRedeliver: 1, wHold: 3, fifo: 70, dup: 3, burst: 25},
+	{Name: "mostly-benign", wBenign: 60, wDeliver: 10, wLocal: 10, wTimeout: 4, wFast: 1, wClock: 2, wDrop: 2, wPartition: 1, wHeal: 2, wCrash: 2, wRestart: 4, wCatchup: 1, wByz: 4, wTickAll: 2, wDisk: 2, wRedeliver: 1, wHold: 2, wCrashLoop: 1, fifo: 80, dup: 3, burst: 40},
+	{Name: "reorder", wBenign: 10, wDeliver: 45, wLocal: 25, wTimeout: 4, wFast: 1, wClock: 2, wDrop: 2, wPartition: 1, wHeal: 2, wCrash: 1, wRestart: 4, wCatchup: 1, wByz: 4, wTickAll: 2, wDisk: 3, wRedeliver: 2, wHold: 2, wCrashLoop: 1, fifo: 20, dup: 10, burst: 12},
+	{Name: "lossy", wBenign: 30, wDeliver: 15, wLocal: 15, wTimeout: 6, wFast: 1, wClock: 2, wDrop: 16, wPartition: 1, wHeal: 2, wCrash: 1, wRestart: 4, wCatchup: 2, wByz: 4, wTickAll: 6, wDisk: 2, wRedeliver: 1, wHold: 6, wCrashLoop: 1, fifo: 60, dup: 3, burst: 25},
+	{Name: "partition", wBenign: 45, wDeliver: 10, wLocal: 10, wTimeout: 5, wFast: 2, wClock: 2, wDrop: 2, wPartition: 6, wHeal: 3, wCrash: 1, wRestart: 4, wCatchup: 2, wByz: 4, wTickAll: 8, wDisk: 2, wRedeliver: 1, wHold: 4, wCrashLoop: 1, fifo: 70, dup: 3, burst: 40},
+	{Name: "crashy", wBenign: 40, wDeliver: 10, wLocal: 12, wTimeout: 4, wFast: 1, wClock: 2, wDrop: 2, wPartition: 1, wHeal: 2, wCrash: 10, wRestart: 10, wCatchup: 2, wByz: 3, wTickAll: 4, wDisk: 6, wRedeliver: 1, wHold: 2, wCrashLoop: 7, fifo: 70, dup: 3, burst: 25},
+	{Name: "timeouts", wBenign: 35, wDeliver: 8, wLocal: 8, wTimeout: 14, wFast: 5, wClock: 5, wDrop: 4, wPartition: 1, wHeal: 2, wCrash: 1, wRestart: 4, wCatchup: 1, wByz: 3, wTickAll: 14, wDisk: 2, wRedeliver: 1, wHold: 8, wCrashLoop: 1, fifo: 70, dup: 3, burst: 25},
+	{Name: "byzantine", wBenign: 40, wDeliver: 10, wLocal: 10, wTimeout: 5, wFast: 1, wClock: 2, wDrop: 3, wPartition: 1, wHeal: 2, wCrash: 1, wRestart: 4, wCatchup: 1, wByz: 22, wTickAll: 5, wDisk: 2, wRedeliver: 1, wHold: 3, wCrashLoop: 1, fifo: 70, dup: 3, burst: 25},
 }
 
 // engaSched drives one case: every decision is a rapid draw, so the whole schedule shrinks as one value.
@@ -256,7 +256,7 @@ func (sc *engaSched) step() bool {
 		acts = append(acts, wa{p.wPartition, sc.actPartition}, wa{p.wHeal, sc.actHeal})
 	}
 	if sc.allowCrash {
-		acts = append(acts, wa{p.wCrash, sc.actCrash}, wa{p.wRestart, sc.actRestart})
+		acts = append(acts, wa{p.wCrash, sc.actCrash}, wa{p.wRestart, sc.actRestart}, wa{p.wCrashLoop, sc.actCrashLoop})
 	}
 	if len(s.byz) > 0 {
 		acts = append(acts, wa{p.wByz, sc.actByz})
@@ -621,6 +621,33 @@ func (sc *engaSched) actCrash() bool {
 		sc.crashPhase = rapid.IntRange(0, 3).Draw(sc.t, "crashPhase")
 		sc.crashDown = rapid.IntRange(0, 120).Draw(sc.t, "downFor")
 		sc.watch.attested[i] = 0
+	}
+	return true
+}
+
+// actCrashLoop: a node that already persisted something crashes, restarts from its crash DB, does a little local work
+// (the persistence loop may or may not complete the re-persisted state), crashes again and restarts — the double crash
+// within a round that used to lose the crash state (fix 15ee9a30f7).
+func (sc *engaSched) actCrashLoop() bool {
+	var cand []int
+	for i, n := range sc.s.nodes {
+		if n.up && n.disk != nil {
+			cand = append(cand, i)
+		}
+	}
+	if len(cand) == 0 {
+		return false
+	}
+	i := sc.pick(cand, "loopNode")
+	n := sc.s.nodes[i]
+	cycles := rapid.IntRange(2, 3).Draw(sc.t, "loopCycles")
+	for c := 0; c < cycles; c++ {
+		if !sc.s.crash(i) {
+			return c > 0
+		}
+		sc.s.restart(i)
+		for k := rapid.IntRange(0, 6).Draw(sc.t, "loopLocal"); k > 0 && n.localStep(); k-- {
+		}
 	}
 	return true
 }
